@@ -236,6 +236,8 @@ def classify(tname, src, probs):
     if tname in ('inline_marked_subroutines', 'inline_internal_procedures') and probs[0][0] in ('reparse', 'gfortran') and \
             re.search(r'::\s*\w+\([^)]*:[^)]*\)', low) and re.search(r'[(,]\s*:\s*[,)]', low):
         return 'inline-offset-on-bare-range'
+    if tname == 'add_explicit_array_dimensions' and probs[0][0] in ('reparse', 'gfortran') and re.search(r'^\s*associate\s*\(', low, re.M):
+        return 'explicit-dims-on-associate-name'
     return None
 
 
@@ -367,7 +369,7 @@ class C41(Prop):
                   'sanitise_imports_keeps_partial (explicitly imported used names stay imported) and sanitise_imports_bare_partial (USE '
                   'statements without ONLY list stay, outside class KnownBareUse = such a statement next to a redundant imported symbol, '
                   'where the real code drops them).  Every other registered built-in transformation (34 entries with option '
-                  'combinations): oracle only (8 known-finding classes, one of them with a Lean predicate) — scope chains, declared-or-imported, frontend re-parse of fgen, gfortran -fsyntax-only.')
+                  'combinations): oracle only (9 known-finding classes, one of them with a Lean predicate) — scope chains, declared-or-imported, frontend re-parse of fgen, gfortran -fsyntax-only.')
     level_note = ('wf is stated on FIR (case-insensitive look-ups); the correspondence compares the Lean wf of the model result with a Python '
                   'mirror of wf evaluated on the export of the really transformed IR.  A transformation that raises leaves no IR to judge: '
                   'counted in the evidence and reported in notes/C41.md, not a C41 failure.')
@@ -380,7 +382,7 @@ class C41(Prop):
     extra_obligations = ['oracle: scope chains, declared-or-imported, re-parse and gfortran syntax check after every registered transformation']
 
     def classes(self):
-        return ['sanitise-imports-drops-bare-use', 'sanitise-imports-module-spec', 'remove-unused-vars-loop-variable', 'vector-notation-half-open-range', 'normalize-shape-drops-stride', 'merge-associates-detached-scope', 'loop-unroll-exit-cycle', 'inline-offset-on-bare-range']
+        return ['sanitise-imports-drops-bare-use', 'sanitise-imports-module-spec', 'remove-unused-vars-loop-variable', 'vector-notation-half-open-range', 'normalize-shape-drops-stride', 'merge-associates-detached-scope', 'loop-unroll-exit-cycle', 'inline-offset-on-bare-range', 'explicit-dims-on-associate-name']
 
     def gen(self, rng, tier):
         rounds = {'quick': 1, 'thorough': 8, 'search': 3}.get(tier, 1)
